@@ -2,6 +2,7 @@
 # seed_all.sh [tier] : run every stored seeded change against the check of the property it breaks.
 # Prints one line per change: DETECTED / MISSED. /repo is restored after each.
 cd /verif
+export VERIF_EVIDENCE_DIR=/verif/.build/seed-evidence
 TIER=${1:-quick}
 for d in seeded/*/; do
   id=$(basename "$d"); case "$id" in *-dropped) continue;; esac; prop=${id%-*}
